@@ -35,7 +35,22 @@ def make_form(rng, i):
                           p_choice_media=0.3, p_or_other=rng.choice([0, 0.3]), p_choice_filter=0.3, p_randomize=0.2, audit=0.2,
                           p_search=rng.choice([0, 0.3]), p_choice_label_ref=rng.choice([0, 0.3]))
     f = gen.gen_form(rng, cfg)
-    k = rng.randrange(5)
+    k = rng.randrange(8)
+    if k == 5:
+        # metadata/preload types whose type table entry carries default texts; the sheet's own hint/label must survive the dump
+        for t in rng.sample(["phonenumber", "deviceid", "username", "email", "start", "end", "today", "simserial", "subscriberid"], 3):
+            f.survey.append(Row("q", t, f"md_{t}", rng.choice([{}, {"hint": f"own hint for {t}"}, {"label": f"own label {t}", "hint": f"h {t}"}])))
+        # legacy types whose type-table entry has a built-in hint: the sheet's hint replaces it and must survive the dump
+        for t in rng.sample(["phone number", "number of days in last month", "number of days in last six months", "number of days in last year"], 2):
+            f.survey.append(Row("q", t, "lg_" + t.replace(" ", "_"), rng.choice([{"label": "L"}, {"label": "L", "hint": f"own hint for {t}"}])))
+    elif k == 6:
+        f.survey.append(Row("q", rng.choice(["osm", "osm building_tags"]), "osm_q", {"label": "OSM"}))
+        f.extra_sheets["osm"] = (["list_name", "name", "label"], [["building_tags", "building", "Building"], ["building", "yes", "Yes"], ["building_tags", "amenity", "Amenity"]])
+    elif k == 7:
+        ln = next(iter(f.choices))
+        f.settings["add_none_option"] = rng.choice(["yes", "true"])
+        f.survey.append(Row("q", f"select_multiple {ln}", "sm_none_a", {"label": "A"}))
+        f.survey.append(Row("q", f"select_multiple {ln}", "sm_none_b", {"label": "B"}))
     if k == 0:
         f.entities = {"list_name": "ent", "label": "concat('e', '1')"}
         for r in [r for r in f.survey if r.kind == "q" and (r.type or "").split(" ")[0] in ("text", "integer")][:2]:
